@@ -258,15 +258,13 @@ def run(tier, res, seed):
             if not ds:
                 res.undec('pair %s (%s): compiler failed without a diagnostic: %s' % (name, lang, err[-300:]))
                 continue
-            res.obligations += 1
             for sym, msg, fil in ds:
                 pair_syms.add(sym)
                 key = '%s:%s' % (pair, sym)
                 if key in seen:
                     continue
                 seen.add(key)
-                res.obligations -= 1 if False else 0
-                res.violations.append({'key': key, 'text': 'include/%s then include/%s (%s): %s: %s' % (a, b, lang, sym, msg), 'detail': {}})
+                res.violation(key, 'include/%s then include/%s (%s): %s: %s' % (a, b, lang, sym, msg))
     # 3. all headers together in several orders
     orders = [('directory order', list(hs)), ('reverse order', list(reversed(hs)))]
     rnd = random.Random(seed)
